@@ -174,7 +174,9 @@ class Replay:
                     return t
             raise StaleReplay(f"step {k.steps}: task {want} not runnable "
                               f"(runnable={[t.name for t in runnable]})")
-        if cur_ok:
+        if cur_ok or k.cur in runnable:
+            # no decision recorded at this step means the baton stayed where it was
+            # (also when the current task blocked and its own timer woke it at once)
             return k.cur
         raise StaleReplay(f"step {k.steps}: forced choice with no recorded decision "
                           f"(runnable={[t.name for t in runnable]})")
